@@ -243,6 +243,8 @@ def gen_op(rng, state):
     """state: skeleton of the current root"""
     if rng.random() < 0.07:
         return gen_update(rng, state)
+    if rng.random() < 0.06:
+        return gen_update_bs(rng, state)
     if rng.random() < 0.05:
         # auto_batch_size_ on the root or through a nested handle (there it may cut the child's batch size below its
         # parent's — the documented exclusion, recognised after the call by check_C01.auto_out_of_scope)
@@ -536,6 +538,84 @@ def gen_update(rng, state):
     return ["update", tuple(h), items]
 
 
+def rebatch(sk, n_old, new):
+    """the same structure with the first n_old dims of every shape replaced by `new`, unnamed"""
+    if sk[0] == "l":
+        return ["l", (list(new) + list(sk[1][n_old:]))[:5], sk[2]]
+    return ["n", (list(new) + list(sk[1][n_old:]))[:4], sk[2], None, [[k, rebatch(c, n_old, new)] for k, c in sk[4]]]
+
+
+def gen_update_bs(rng, state):
+    """update(payload, update_batch_size=True): payloads built FROM the destination (same keys, another batch size at the root or in
+    one nested tensordict, some entries dropped / added / ill-shaped) so that the recursion, the mismatching-head and the
+    batch_size_changed paths are taken, and unrelated random payloads"""
+    import copy
+    nodes = nodes_of(state)
+    h, node = ((), state) if rng.random() < 0.7 else rng.choice(nodes)
+    bs = list(node[1])
+    q = rng.random()
+    if q < 0.75:
+        r = rng.random()
+        if r < 0.35:
+            new = mutate_shape(rng, bs)
+        elif r < 0.5:
+            new = bs[:rng.randint(0, len(bs))]
+        elif r < 0.6:
+            new = gen_bs(rng)
+        else:
+            new = list(bs)
+        payload = rebatch(copy.deepcopy(node), len(bs), new)
+        payload[2] = rng.choice([None, None, node[2]])
+        if payload[2] is None:
+            def undev(s):
+                if s[0] == "n":
+                    s[2] = None if rng.random() < 0.7 else s[2]
+                    for _, c in s[4]:
+                        undev(c)
+            undev(payload)
+        subs = [(p, c) for p, c in nodes_of(payload) if p]
+        if subs and rng.random() < 0.6:
+            # one nested tensordict gets other dims beyond (or instead of) its parent's
+            p, c = rng.choice(subs)
+            parent = get_at(payload, p[:-1])
+            n_par = len(parent[1])
+            r2 = rng.random()
+            if r2 < 0.5:
+                ext = [rng.choice(DIMS) for _ in range(rng.randint(0, 2))]
+                newc = rebatch(c, len(c[1]), list(parent[1]) + ext)
+            elif r2 < 0.8:
+                newc = rebatch(c, len(c[1]), mutate_shape(rng, c[1]))
+            else:
+                newc = rebatch(c, len(c[1]), gen_bs(rng))
+            for kv in parent[4]:
+                if kv[0] == p[-1]:
+                    kv[1] = newc
+        if payload[4] and rng.random() < 0.25:
+            payload[4].pop(rng.randrange(len(payload[4])))
+        if rng.random() < 0.25:
+            k = rng.choice(KEYS)
+            if k not in [kk for kk, _ in payload[4]]:
+                payload[4].append([k, ["l", gen_shape_ext(rng, payload[1], 0, 1)[:5], 0] if rng.random() < 0.6
+                                   else gen_tree(rng, gen_shape_ext(rng, payload[1], 0, 1)[:3], None, 1, maxkids=2)])
+        if payload[4] and rng.random() < 0.2:
+            kv = rng.choice(payload[4])
+            if kv[1][0] == "l":
+                kv[1][1] = mutate_shape(rng, kv[1][1])
+    else:
+        pbs = rng.choice([bs, mutate_shape(rng, bs), gen_bs(rng), bs[:max(0, len(bs) - 1)]])
+        payload = gen_tree(rng, list(pbs)[:3], rng.choice([None, None, node[2], 0]), rng.randint(0, 2), maxkids=3)
+        mine = [k for k, _ in node[4]]
+        for kv in payload[4]:
+            if mine and rng.random() < 0.6:
+                kv[0] = rng.choice(mine)
+        seen, uniq = set(), []
+        for kv in payload[4]:
+            if kv[0] not in seen:
+                seen.add(kv[0]); uniq.append(kv)
+        payload[4] = uniq
+    return ["updatebs", tuple(h), payload]
+
+
 def build_pv(v):
     if v[0] == "l":
         return torch.zeros(v[1], device=DEVS[v[2]])
@@ -559,7 +639,7 @@ def cls_of(e):
 
 
 def prepare_op(op):
-    if op[0] == "updatetd":
+    if op[0] in ("updatetd", "updatebs"):
         try:
             v = build(op[2])
         except Exception:  # noqa
@@ -620,6 +700,8 @@ def apply_impl(td, op, tlimit=10.0):
                 run_write(node, op[4])
             elif kind == "updatetd":
                 node.update(op[4])
+            elif kind == "updatebs":
+                node.update(op[4], update_batch_size=True)
             elif kind == "auto":
                 node.auto_batch_size_(op[2])
             elif kind == "selectin":
@@ -699,8 +781,8 @@ def sx_op(op):
         return f"(selectin {sx_path(op[1])} {sx_tree(op[2])})"
     if k == "write":
         return f"(write {sx_path(op[1])} {'true' if op[2] else 'false'} {sx_tree(op[3])})"
-    if k == "updatetd":
-        return f"(updatetd {sx_path(op[1])} {sx_tree(op[2])})"
+    if k in ("updatetd", "updatebs"):
+        return f"({k} {sx_path(op[1])} {sx_tree(op[2])})"
     if k == "auto":
         return f"(auto {sx_path(op[1])} {'none' if op[2] is None else int(op[2])})"
     if k == "update":
